@@ -133,7 +133,25 @@ def compare(d, got):
         out.append(("actions", "differ", "got %r want %r" % (a[1], wa)))
     if m[0] != "ret" or m[1] != d.matchtype:
         out.append(("matchtype", "differ", "got %r want %r" % (m, d.matchtype)))
+    # what was returned belongs to the caller: it is edited in place here (the usual "read
+    # a rule, change it, write it back" flow); later read-backs must not see the edits
+    for r in (c, a):
+        if r[0] == "ret" and isinstance(r[1], list):
+            _scribble(r[1])
     return out
+
+
+def _scribble(x):
+    for i, item in enumerate(list(x)):
+        if isinstance(item, list):
+            _scribble(item)
+        elif isinstance(item, tuple):
+            for sub in item:
+                if isinstance(sub, list):
+                    _scribble(sub)
+    x.append("scribbled-by-the-caller")
+    if len(x) > 1:
+        x[0], x[-1] = x[-1], x[0]
 
 
 def evaluate(d):
